@@ -91,10 +91,42 @@ theorem push_slice_spec (xs es : List Val) (n : Int) :
   push_each_slice xs es n
 
 theorem addToSet_spec (xs es : List Val) (v : Val) (hv : ∀ fs, v = .doc fs → dget "$each" fs = none) :
-    addToSetValue (.arr xs) (.doc [("$each", .arr es)]) =
-      .ok (.arr (xs ++ es.filter (fun o => !pyIn o xs))) ∧
-    addToSetValue (.arr xs) v = .ok (.arr (if pyIn v xs then xs else xs ++ [v])) :=
+    addToSetValue (.arr xs) (.doc [("$each", .arr es)]) = .ok (.arr (addAll xs es)) ∧
+    addToSetValue (.arr xs) v = .ok (.arr (addOne xs v)) :=
   ⟨addToSet_each xs es, addToSet_plain xs v hv⟩
+
+theorem addToSet_each_once (xs es : List Val) :
+    ∃ added, addAll xs es = xs ++ added ∧
+      (∀ o ∈ added, o ∈ es ∧ pyIn o xs = false) ∧
+      added.Pairwise (fun a b => pyEq a b = false) := by
+  obtain ⟨added, h1, h2, h3⟩ := addAll_once xs es [] (by simp) (by simp)
+  refine ⟨added, by simpa [addAll] using h1, fun o ho => ?_, h3⟩
+  obtain ⟨h4, h5⟩ := h2 o ho
+  exact ⟨by simpa using h4, h5⟩
+
+theorem min_max_array_spec (now : Val) (xs : List Val) (i : Nat) :
+    (∀ n k : Int, xs[i]? = some (.int n) →
+      runUpdater .max now (.arr xs) (toString i) (.int k) =
+        .ok (.arr (xs.set i (.int (if k > n then k else n)))) ∧
+      runUpdater .min now (.arr xs) (toString i) (.int k) =
+        .ok (.arr (xs.set i (.int (if k < n then k else n))))) ∧
+    (∀ v : Val, xs[i]? = none →
+      runUpdater .max now (.arr xs) (toString i) v = .ok (.arr (padSet xs i v)) ∧
+      runUpdater .min now (.arr xs) (toString i) v = .ok (.arr (padSet xs i v))) :=
+  ⟨fun n k h => ⟨max_arr_int now xs i n k h, min_arr_int now xs i n k h⟩,
+   fun v h => minmax_arr_pad now v xs i h⟩
+
+theorem pull_path_spec (value : Val) (parts : List String) (d d' : Val)
+    (h : pullWalk value parts d = .ok d') :
+    (∀ xs, getPath parts d = some (.arr xs) →
+      ∃ ys, pullList value xs = .ok ys ∧ getPath parts d' = some (.arr ys)) ∧
+    ((∀ xs, getPath parts d ≠ some (.arr xs)) → d' = d) :=
+  pullWalk_spec value parts d d' h
+
+theorem pullAll_missing_path_noop (spec d : Val) (field : String) (value d' : Val)
+    (hm : getPath (splitDots field) d = none)
+    (h : pullAllField spec d field value = .ok d') : d' = d :=
+  pullAll_missing_noop spec d field value d' hm h
 
 theorem pullAll_spec (xs vs : List Val) :
     pullAllValue (.arr xs) (.arr vs) = .ok (.arr (xs.filter (fun o => !pyIn o vs))) := rfl
